@@ -31,7 +31,7 @@ THEOREMS = [
     'prefix_model_violates_exactly_one', 'unbound_witness', 'unexport_witness', 'table_shape',
     'deferred_after_unexport_one_reply', 'deferred_after_unexport_witness', 'builtin_reply', 'builtin_witness',
     'properties_call_reply_is_c17', 'properties_get_error_exact', 'properties_set_getall_error_exact', 'properties_lookup_errors', 'library_serves_plain_objects', 'builtin_table_shape',
-    'properties_witness', 'empty_interface_name_binding', 'empty_name_witness',
+    'properties_witness', 'empty_interface_name_binding', 'empty_name_witness', 'property_key_order_witness',
 ]
 TRUSTED_BASE = [
     'Python attribute lookup along __mro__, dict order of class __dict__, inspect.getfullargspec, '
@@ -295,17 +295,46 @@ def gen_decls(rng, rich=False, props=None):
     if rng.random() < 0.1:
         paths.append(paths[0])          # exported twice: the second export replaces the first
     objects = [{'path': p, 'cls': rng.randrange(len(classes))} for p in paths]
+    if rng.random() < 0.35:
+        # a second INSTANCE of a class that is already exported, at another path (which instance runs must follow the path)
+        free = [p for p in PATHS if p not in paths]
+        if free:
+            objects.append({'path': rng.choice(free), 'cls': objects[0]['cls']})
+    two = not rich and rng.random() < 0.3
+    if two:
+        # a second handler (own connection) in the same process: some objects live there - also an instance of a class
+        # that handler 0 exports too, possibly at the SAME path
+        for o in objects[1:]:
+            if rng.random() < 0.4:
+                o['h'] = 1
+        objects.append({'path': rng.choice([objects[0]['path'], rng.choice(PATHS)]), 'cls': objects[0]['cls'], 'h': 1})
     if props if props is not None else rng.random() < 0.15:
-        ifaces.append({'name': PROP_IFACE, 'methods': [], 'props': [['p', 's']]})
-        classes[0]['ifaces'] = (classes[0]['ifaces'] or []) + [len(ifaces) - 1]
-        classes[0]['props'] = ['p']
+        names = [i['name'] for i in ifaces]
+        own = [j for j in (classes[0]['ifaces'] or []) if names[j] != '' and names.count(names[j]) == 1]
+        if own and rng.random() < 0.5:
+            # the property lives on an interface that also has METHODS - functions are decorated for it - and may stand
+            # before the functions in the class body (the cache entry of its interface is then created first)
+            j = rng.choice(own)
+            ifaces[j]['props'] = [['p', 's']]
+            classes[0]['props'] = [{'name': 'p', 'iface': names[j] if rng.random() < 0.7 else None}]
+        else:
+            ifaces.append({'name': PROP_IFACE, 'methods': [], 'props': [['p', 's']]})
+            classes[0]['ifaces'] = (classes[0]['ifaces'] or []) + [len(ifaces) - 1]
+            classes[0]['props'] = ['p']
+        classes[0]['props_at'] = rng.choice([0, 0, None, rng.randrange(0, len(classes[0]['attrs']) + 1)])
+        if not rich and '' not in names and rng.random() < 0.3:
+            # ... and one of the OTHER interfaces has no name: a call without interface that finds it looks through the
+            # functions of every interface in cache order
+            cand = [j for j in range(len(names)) if 'props' not in ifaces[j]]
+            if cand:
+                ifaces[rng.choice(cand)]['name'] = ''
         for o in objects:
             o['pval'] = rng.choice(["'v'", "'other'"] + BAD_PROP_VALUES)
     # a plain mixin alone is not exportable
     for o in objects:
         while classes[o['cls']]['bases'] == ['plain']:
             o['cls'] = rng.randrange(len(classes))
-    return {'ifaces': ifaces, 'classes': classes, 'objects': objects}
+    return {'ifaces': ifaces, 'classes': classes, 'objects': objects, 'two_handlers': two}
 
 
 def declared_ifaces_of(decls, cls_idx):
@@ -372,9 +401,14 @@ def gen_call(rng, decls, builtin_bias=0.10):
     body = gen_value(rng, sig_in)
     sig = sig_in if sig_in != '' else rng.choice([None, None, ''])
     sender = rng.choice([':1.7', ':1.7', ':1.42', 'org.caller', None])
-    return {'op': 'call', 'path': path, 'iface': iface, 'member': member, 'sig': sig, 'body': repr(body),
-            'sender': sender, 'serial': rng.choice([1, 2, 77, 2573, 2 ** 32 - 1, rng.randrange(1, 2 ** 32)]),
-            'expectReply': rng.random() < 0.7, 'autoStart': rng.random() < 0.6, 'flag4': rng.random() < 0.3}
+    op = {'op': 'call', 'path': path, 'iface': iface, 'member': member, 'sig': sig, 'body': repr(body),
+          'sender': sender, 'serial': rng.choice([1, 2, 77, 2573, 2 ** 32 - 1, rng.randrange(1, 2 ** 32)]),
+          'expectReply': rng.random() < 0.7, 'autoStart': rng.random() < 0.6, 'flag4': rng.random() < 0.3}
+    if decls.get('two_handlers'):
+        # mostly the handler the chosen object lives on; sometimes the other one (same path, other table)
+        h = o.get('h', 0)
+        op['h'] = h if rng.random() < 0.85 else 1 - h
+    return op
 
 
 # ----------------------------------------------------------------------------- building the real thing
@@ -395,11 +429,13 @@ class Recorder:
             wire = message.parseMessage(m.rawMessage, [])
         except Exception as e:     # noqa
             wire = e
-        self.log.append(('sent', m, wire))
+        self.log.append(('sent', m, wire, self.conn_index))
 
-    def invoked(self, fid, args, caller):
+    conn_index = 0      # this object is the connection of handler 0; `SideConn` is the one of handler 1
+
+    def invoked(self, fid, args, caller, inst=None):
         from twisted.internet import defer
-        self.log.append(('inv', fid, args, caller))
+        self.log.append(('inv', fid, args, caller, inst))
         oc = self.outcome
         kind = oc['kind']
         if kind == 'value':
@@ -421,6 +457,19 @@ class Recorder:
         d = defer.Deferred()
         self.deferreds[self.current] = d
         return d
+
+
+class SideConn:
+    """The connection of the SECOND handler of a scenario: same log, other index."""
+    conn_index = 1
+
+    def __init__(self, rec):
+        self.rec = rec
+
+    def sendMessage(self, m):
+        n0 = len(self.rec.log)
+        Recorder.sendMessage(self.rec, m)
+        self.rec.log[n0:] = [e[:3] + (1,) for e in self.rec.log[n0:]]
 
 
 _exc_classes = {}
@@ -463,35 +512,35 @@ def make_func(rec, name, fid, deco, wants, arity=None, shape=None):
     from txdbus import objects
     if shape == 'mid':
         def f(self, dbusCaller, a1=_M, a2=_M, a3=_M):
-            return rec.invoked(fid, [dbusCaller] + [a for a in (a1, a2, a3) if a is not _M], _M)
+            return rec.invoked(fid, [dbusCaller] + [a for a in (a1, a2, a3) if a is not _M], _M, self)
     elif shape == 'kwargs':
         # dbusCaller is the last NAMED POSITIONAL parameter, a **catch-all follows: asks for the caller
         def f(self, a0=_M, a1=_M, a2=_M, a3=_M, dbusCaller=_M, **options):
-            return rec.invoked(fid, [a for a in (a0, a1, a2, a3) if a is not _M], dbusCaller)
+            return rec.invoked(fid, [a for a in (a0, a1, a2, a3) if a is not _M], dbusCaller, self)
     elif shape == 'kwonly':
         # keyword-only parameters after dbusCaller: asks for the caller
         def f(self, a0=_M, a1=_M, a2=_M, a3=_M, dbusCaller=_M, *, flag=None, other=1):
-            return rec.invoked(fid, [a for a in (a0, a1, a2, a3) if a is not _M], dbusCaller)
+            return rec.invoked(fid, [a for a in (a0, a1, a2, a3) if a is not _M], dbusCaller, self)
     elif shape == 'varargs0':
         # `(self, dbusCaller=None, *extra)`: asks for the caller (only bound to members without arguments)
         def f(self, dbusCaller=_M, *extra):
-            return rec.invoked(fid, list(extra), dbusCaller)
+            return rec.invoked(fid, list(extra), dbusCaller, self)
     elif shape == 'kwonly-caller':
         # a KEYWORD-ONLY dbusCaller is not among the named positional parameters: by the code's rule
         # (inspect.getfullargspec()[0]) this method does not ask for the caller
         def f(self, *args, dbusCaller=_M):
-            return rec.invoked(fid, list(args), dbusCaller)
+            return rec.invoked(fid, list(args), dbusCaller, self)
     elif arity is not None:
         params = ['self'] + ['a%d' % i for i in range(arity)] + (['dbusCaller'] if wants else [])
-        src = 'lambda %s: _rec.invoked(_fid, [%s], %s)' % (
+        src = 'lambda %s: _rec.invoked(_fid, [%s], %s, self)' % (
             ', '.join(params), ', '.join('a%d' % i for i in range(arity)), 'dbusCaller' if wants else '_M')
         f = eval(src, {'_rec': rec, '_fid': fid, '_M': _M})
     elif wants:
         def f(self, a0=_M, a1=_M, a2=_M, a3=_M, dbusCaller=_M):
-            return rec.invoked(fid, [a for a in (a0, a1, a2, a3) if a is not _M], dbusCaller)
+            return rec.invoked(fid, [a for a in (a0, a1, a2, a3) if a is not _M], dbusCaller, self)
     else:
         def f(self, *args):
-            return rec.invoked(fid, list(args), _M)
+            return rec.invoked(fid, list(args), _M, self)
     f.__name__ = name
     f.__qualname__ = name
     f._fid = fid
@@ -525,6 +574,10 @@ class Built:
         self.decls = decls
         self.rec = Recorder()
         self.handler = objects.DBusObjectHandler(self.rec)
+        # a SECOND handler (own connection) in the same process: the classes - and with them every piece of state the
+        # library keeps on classes - are shared between the two
+        self.handler1 = objects.DBusObjectHandler(SideConn(self.rec))
+        self.handlers = [self.handler, self.handler1]
         self.ifaces = []
         for i in decls['ifaces']:
             members = [interface.Method(m[0], m[1], m[2]) for m in i['methods']]
@@ -552,9 +605,12 @@ class Built:
             def add_props():
                 for pd in props:
                     ns[pd['name']] = objects.DBusProperty(pd['name'], pd['iface'])
-            if c.get('props_first'):
-                add_props()         # class body order: the properties BEFORE the methods
-            for a in c['attrs']:
+            # class body order: the properties before (`props_first`), between (`props_at` = number of methods before
+            # them) or after the methods
+            pa = c.get('props_at', 0 if c.get('props_first') else None)
+            for idx, a in enumerate(c['attrs']):
+                if pa == idx:
+                    add_props()
                 ns[a['name']] = make_func(self.rec, a['name'], a['fid'], a['deco'], a['wants'], a.get('arity'), a.get('shape'))
             if c.get('truth') == 'len0':
                 ns['__len__'] = lambda self: 0
@@ -565,7 +621,7 @@ class Built:
                     self.__dict__['_truth_n'] = self.__dict__.get('_truth_n', 0) + 1
                     return self.__dict__['_truth_n'] % 3 == 0
                 ns['__bool__'] = __bool__
-            if not c.get('props_first'):
+            if pa is None or pa >= len(c['attrs']):
                 add_props()
             if props and c.get('assign_in_init', True):
                 def __init__(self, path, _pns=tuple(pd['name'] for pd in props)):
@@ -575,7 +631,9 @@ class Built:
                 ns['__init__'] = __init__
             self.classes.append(type('K%d' % k, tuple(bases) or (object,), ns))
         self.objects = []
-        self.exported = {}
+        self.exported = {}          # handler 0: path -> object
+        self.exported1 = {}         # handler 1
+        self.exp = [self.exported, self.exported1]
         self.failed_exports = 0
         for o in decls['objects']:
             self.export(o)
@@ -585,20 +643,21 @@ class Built:
         """`exportObject` of a fresh object described by {'path', 'cls', ['pval']}.  Returns the object, or None
         when creating / exporting it raised (a misdeclared class: the application logs that and carries on) - then
         nothing is exported by this step; `self.failed_exports` counts them."""
+        h = o.get('h', 0)
         try:
             obj = self.classes[o['cls']](o['path'])
-            self.handler.exportObject(obj)
+            self.handlers[h].exportObject(obj)
         except Exception:       # noqa: whatever the library raises for a class it cannot use
             self.failed_exports += 1
             # what is visible at the path now is the handler's (and C16's) business: follow it
-            cur = L.exports_of(self.handler, LOC_NOTES).get(o['path'])
+            cur = L.exports_of(self.handlers[h], LOC_NOTES).get(o['path'])
             if cur is None:
-                self.exported.pop(o['path'], None)
+                self.exp[h].pop(o['path'], None)
             else:
-                self.exported[o['path']] = cur
+                self.exp[h][o['path']] = cur
             return None
         self.objects.append(obj)
-        self.exported[o['path']] = obj
+        self.exp[h][o['path']] = obj
         if 'pval' in o and any('p' in vars(k) for k in type(obj).__mro__):     # (hasattr on the class would call the descriptor)
             try:
                 obj.p = parse_value(o['pval'])      # the application assigns; a bad value raises here
@@ -606,11 +665,11 @@ class Built:
                 pass
         return obj
 
-    def unexport(self, path):
+    def unexport(self, path, h=0):
         """`unexportObject(path)`; a path that is not exported raises KeyError to the application."""
-        self.exported.pop(path, None)
+        self.exp[h].pop(path, None)
         try:
-            self.handler.unexportObject(path)
+            self.handlers[h].unexportObject(path)
         except KeyError:
             pass
 
@@ -646,6 +705,19 @@ class Built:
             else:
                 toks.append('0')
             toks += [str(len(pos))] + [str_hex(x) for x in pos]
+        # DBusProperty attributes in class-body order: how many FUNCTIONS precede each, and the interface it is bound
+        # to (they implement no member, but `_cacheInterfaces` creates the cache entry of their interface, which fixes
+        # the dict order the lookup for a nameless interface scans)
+        pk, nf = [], 0
+        for n, v in d.items():
+            if inspect.isfunction(v):
+                nf += 1
+            elif isinstance(v, objects.DBusProperty):
+                pk.append((nf, v.interface))
+        pk = [(n, i) for n, i in pk if isinstance(i, str)]
+        toks.append(str(len(pk)))
+        for n, i in pk:
+            toks += [str(n), str_hex(i)]
         return toks
 
     @staticmethod
@@ -657,8 +729,8 @@ class Built:
         return toks
 
     def export_lines(self):
-        return [' '.join(['export'] + self.obj_tokens(path, obj))
-                for path, obj in L.exports_of(self.handler, LOC_NOTES).items()]
+        return [' '.join((['h1'] if h else []) + ['export'] + self.obj_tokens(path, obj))
+                for h in (0, 1) for path, obj in L.exports_of(self.handlers[h], LOC_NOTES).items()]
 
 
 def kwonly_caller(f):
@@ -855,19 +927,20 @@ def expected_of(built, op):
     with the model (which mirrors the code's tie-breaks) but the monitor only applies the rules
     that do not depend on the tie-break."""
     pair = (op['iface'], op['member'])
-    exported = op['path'] in built.exported
+    table = built.exp[op.get('h', 0)]       # what the application exported on the handler that gets the call
+    exported = op['path'] in table
     if pair == PEER:
         return {'v': 'builtin'}
     if pair == INTRO:
         below = any(p.startswith(op['path'] if op['path'].endswith('/') else op['path'] + '/')
-                    for p in built.exported)
+                    for p in table)
         if exported or below:
             return {'v': 'builtin'}
     if not exported:
         return {'v': 'unknown-object'}
     if pair == MANAGED:
         return {'v': 'builtin'}
-    obj = built.exported[op['path']]
+    obj = table[op['path']]
     ifs = spec_ifaces(built, obj)
     if op['iface']:
         cands = [(name, ms.get(op['member'])) for name, ms in ifs if name == op['iface']]
@@ -911,6 +984,7 @@ LOOKUP_ERRORS = {'unknown-object': 'org.freedesktop.DBus.Error.UnknownObject',
 class CallRecord:
     def __init__(self, k, op, msg, exp):
         self.k, self.op, self.exp = k, op, exp
+        self.h = op.get('h', 0)
         # what the CALLER put into the message (the parsed fields are the implementation's business)
         self.serial, self.sender, self.expect_reply = op['serial'], op['sender'], op['expectReply']
         self.decoded = copy.deepcopy(msg.body) if msg.body is not None else []
@@ -944,13 +1018,15 @@ class Scenario:
         out = []
         for ev in events:
             if ev[0] == 'inv':
-                _, fid, args, caller = ev
+                _, fid, args, caller = ev[:4]
                 n = str(len(args)) if args == cr.decoded else 'X'
                 c = '-' if caller is _M else opt_hex(caller)
                 out.append('inv %d %s %s' % (fid, n, c))
                 continue
             m, w = ev[1], ev[2]
-            if isinstance(w, Exception):
+            if ev[3] != cr.h:
+                out.append('on-connection-%d:%s' % (ev[3], type(w).__name__))      # left on the OTHER handler's connection
+            elif isinstance(w, Exception):
                 out.append('unparseable:' + type(w).__name__)
             elif isinstance(w, message.ErrorMessage):
                 text = w.body[0] if w.body else ''
@@ -986,15 +1062,16 @@ class Scenario:
                 self.do_resolve(k, op)
             elif op['op'] == 'export':
                 obj = self.built.export(op)
+                hp = 'h1 ' if op.get('h', 0) else ''
                 if obj is None:
                     # the export raised: no operation of the dispatcher (only the numbering of the history advances)
                     self.model_lines.append('opfailed')
                 else:
-                    self.model_lines.append(' '.join(['opexport'] + Built.obj_tokens(op['path'], obj)))
+                    self.model_lines.append(hp + ' '.join(['opexport'] + Built.obj_tokens(op['path'], obj)))
                 self.impl_lines.append('none')
             else:
-                self.built.unexport(op['path'])
-                self.model_lines.append('opunexport ' + str_hex(op['path']))
+                self.built.unexport(op['path'], op.get('h', 0))
+                self.model_lines.append(('h1 ' if op.get('h', 0) else '') + 'opunexport ' + str_hex(op['path']))
                 self.impl_lines.append('none')
         self.finish()
 
@@ -1012,7 +1089,7 @@ class Scenario:
         rec.current = k
         raised = None
         try:
-            self.built.handler.handleMethodCallMessage(msg)
+            self.built.handlers[cr.h].handleMethodCallMessage(msg)
         except Exception as e:      # would escape dataReceived: the connection is lost
             raised = e
         events = list(rec.log)
@@ -1021,7 +1098,7 @@ class Scenario:
         rv = oc.get('_value', _M) if any(e[0] == 'inv' for e in events) else _M
         line = self.canon_events(cr, events, rv)
         if (op['iface'], op['member']) == MANAGED and (raised is not None or line.startswith('err ')) \
-                and op['path'] in self.built.exported:
+                and op['path'] in self.built.exp[cr.h]:
             self.managed_failures += 1
         if raised is not None:
             line += ' | RAISED ' + type(raised).__name__
@@ -1036,7 +1113,7 @@ class Scenario:
         self.check_after_call(cr)
         # model line
         try:
-            self.model_lines.append(self.call_model_line(cr, op, oc))
+            self.model_lines.append(('h1 ' if cr.h else '') + self.call_model_line(cr, op, oc))
         except (TypeError, ValueError):
             self.model_ok = False
             self.model_lines.append('unrepresentable')
@@ -1056,14 +1133,14 @@ class Scenario:
             otoks = ['D']
         names.append('org.txdbus.PythonException.NotImplementedError')
         menc = None
-        if (op['iface'], op['member']) == MANAGED and op['path'] in L.exports_of(self.built.handler, LOC_NOTES):
-            menc = managed_probe(self.built.handler, op['path'])
+        if (op['iface'], op['member']) == MANAGED and op['path'] in L.exports_of(self.built.handlers[cr.h], LOC_NOTES):
+            menc = managed_probe(self.built.handlers[cr.h], op['path'])
         return ' '.join(toks + names_tokens(names) + enc_tokens(menc) + otoks)
 
     def sig_out_for_model(self, op):
         """sigOut of the method the REAL lookup finds (only used to evaluate the model's `encErr`
         parameter on the real codec; '' when the lookup fails - then no value is ever encoded)."""
-        obj = L.exports_of(self.built.handler, LOC_NOTES).get(op['path'])
+        obj = L.exports_of(self.built.handlers[op.get('h', 0)], LOC_NOTES).get(op['path'])
         if obj is None:
             return ''
         for x in obj.getInterfaces():
@@ -1093,7 +1170,8 @@ class Scenario:
             else:
                 names.append(name0_of(res['exc']))
                 rtoks = ['F'] + exc_tokens(res['exc'])
-            self.model_lines.append(' '.join(['resolve', str(target)] + names_tokens(names) + rtoks))
+            self.model_lines.append(('h1 ' if cr is not None and cr.h else '') +
+                                    ' '.join(['resolve', str(target)] + names_tokens(names) + rtoks))
         except (TypeError, ValueError):
             self.model_ok = False
             self.model_lines.append('unrepresentable')
@@ -1119,9 +1197,10 @@ class Scenario:
 
     # ---- the monitor (from the property statement; implementation only).  Replies are judged on
     # what a caller receives: the message re-parsed from its bytes.
-    def replies_of(self, events):
+    def replies_of(self, events, h=0):
+        """The replies the CALLER can receive: those sent on the connection the call arrived on."""
         from txdbus import message
-        return [e[2] for e in events if e[0] == 'sent'
+        return [e[2] for e in events if e[0] == 'sent' and e[3] == h
                 and isinstance(e[2], (message.MethodReturnMessage, message.ErrorMessage))]
 
     def problem(self, key, what, cr, observed=None, expected=None):
@@ -1140,6 +1219,11 @@ class Scenario:
             if e[0] != 'sent':
                 continue
             w = e[2]
+            if e[3] != cr.h:
+                self.problem('reply-on-wrong-connection', 'a %s for the call left on the connection of ANOTHER handler of the '
+                             'process: the caller cannot receive it' % type(w).__name__, cr, 'connection %d' % e[3],
+                             'connection %d' % cr.h)
+                continue
             if isinstance(w, Exception):
                 self.problem('reply-unparseable', 'the bytes of the reply do not parse (%r): the body on the wire does not match the '
                              'signature in its header - the caller receives no usable reply' % (w,), cr,
@@ -1159,7 +1243,7 @@ class Scenario:
         from txdbus import message
         events = cr.events
         exp = cr.exp
-        replies = self.replies_of(events)
+        replies = self.replies_of(events, cr.h)
         invs = [e for e in events if e[0] == 'inv']
         desc = 'call %s.%s on %s (sig %r, expectReply=%s)' % (cr.op['iface'], cr.op['member'], cr.op['path'],
                                                              cr.op['sig'], cr.expect_reply)
@@ -1174,7 +1258,13 @@ class Scenario:
             elif len(invs) > 1:
                 self.problem('implementation-run-twice', 'user code ran %d times for %s' % (len(invs), desc), cr)
             elif len(invs) == 1:
-                _, fid, args, caller = invs[0]
+                _, fid, args, caller, inst = invs[0]
+                want_inst = self.built.exp[cr.h].get(cr.op['path'])
+                if inst is not None and want_inst is not None and inst is not want_inst:
+                    where = [(h, p) for h in (0, 1) for p, o in self.built.exp[h].items() if o is inst]
+                    self.problem('wrong-instance-run', 'the implementation ran on ANOTHER object than the one exported at the '
+                                 'addressed path %s of this handler (it ran on the object at %s)'
+                                 % (cr.op['path'], where or 'a path no longer exported'), cr, repr(where), cr.op['path'])
                 allowed = [exp['fid']] if exp['v'] == 'run' else exp.get('fids')
                 if allowed is not None and fid not in allowed:
                     self.problem('wrong-implementation-run', 'function %r ran; the candidates bound to the member are %r (%s)'
@@ -1242,8 +1332,8 @@ class Scenario:
 
     def check_after_resolve(self, cr, res, events):
         self.check_addressing(cr, events)
-        replies_all = self.replies_of(cr.events)
-        replies_now = self.replies_of(events)
+        replies_all = self.replies_of(cr.events, cr.h)
+        replies_now = self.replies_of(events, cr.h)
         if len(replies_all) > 1:
             self.problem('duplicate-reply', '%d replies to one call (a Deferred result was answered again)'
                          % len(replies_all), cr, len(replies_all), '<= 1')
@@ -1330,7 +1420,7 @@ class Scenario:
     def finish(self):
         """End of the history: every call that expects a reply has exactly one unless its Deferred never fired."""
         for cr in self.calls.values():
-            replies = self.replies_of(cr.events)
+            replies = self.replies_of(cr.events, cr.h)
             if cr.expect_reply and cr.returned_deferred and cr.resolved is None and replies:
                 self.problem('reply-before-deferred-fired', 'reply without a result', cr)
 
@@ -1382,13 +1472,18 @@ def gen_history(rng, decls, n_ops, deferred_bias=0.0, hostile=False, builtin_bia
             continue
         if rng.random() < export_rate:
             # the application exports / unexports between calls
-            if probe.exported and rng.random() < 0.55:
-                path = rng.choice(sorted(probe.exported)) if rng.random() < 0.9 else rng.choice(PATHS)
+            h = 1 if decls.get('two_handlers') and rng.random() < 0.4 else 0
+            if probe.exp[h] and rng.random() < 0.55:
+                path = rng.choice(sorted(probe.exp[h])) if rng.random() < 0.9 else rng.choice(PATHS)
                 op = {'op': 'unexport', 'path': path}
-                probe.unexport(path)
+                if h:
+                    op['h'] = 1
+                probe.unexport(path, h)
             else:
                 exportable = [i for i, c in enumerate(decls['classes']) if c['bases'] != ['plain']]
                 op = {'op': 'export', 'path': rng.choice(PATHS), 'cls': rng.choice(exportable)}
+                if h:
+                    op['h'] = 1
                 if any('props' in c for c in decls['classes']):
                     op['pval'] = rng.choice(["'v'"] + BAD_PROP_VALUES)
                 probe.export(op)
@@ -1488,6 +1583,13 @@ def gen_shared_base(rng):
             for m in ifaces[j]['methods']:
                 if rng.random() > share:
                     continue
+                if ifaces[j]['name'] == '':
+                    # several functions for the member, decorated for different (other) interfaces
+                    for tgt in rng.sample([PROP_IFACE, 'org.b', 'org.x', 'org.x'], rng.randrange(1, 4)):
+                        fid[0] += 1
+                        attrs.append({'name': 'impl_%s_%d' % (m[0], fid[0]), 'fid': fid[0], 'deco': [tgt, m[0]],
+                                      'wants': rng.random() < 0.4})
+                    continue
                 if rng.random() < 0.75:
                     name, deco = 'impl_%s_%d' % (m[0], j), [ifaces[j]['name'], m[0]]
                 else:
@@ -1499,10 +1601,18 @@ def gen_shared_base(rng):
                 attrs.append({'name': name, 'fid': fid[0], 'deco': deco, 'wants': rng.random() < 0.4})
         return attrs
     with_b = list(range(2, len(ifaces)))
+    nameless = rng.random() < 0.3
+    if nameless:
+        # org.a loses its name: its members can only be reached by calls without interface, and no function can be
+        # decorated for it - the functions are decorated for the property's interface and for others, so the ORDER of
+        # the class body (property before / after / between the functions) decides which of them serves the member
+        ifaces[0]['name'] = ''
     base = {'bases': ['DBusObject'], 'ifaces': None if rng.random() < 0.75 else [0], 'attrs': impls([0] + with_b),
-            'props': [{'name': 'p', 'iface': None}], 'props_first': rng.random() < 0.7,
+            'props': [{'name': 'p', 'iface': None}], 'props_first': rng.random() < 0.7,      # (props_at set below)
             # a write-only property is never read when the object is announced: it need not be assigned
             'assign_in_init': readable or rng.random() < 0.5}
+    if rng.random() < 0.3:
+        base['props_at'] = rng.randrange(0, len(base['attrs']) + 1)
     bad = {'bases': [0], 'ifaces': [0] + with_b, 'attrs': impls(with_b, 0.3)}
     good = {'bases': [0], 'ifaces': rng.sample([0, 1] + with_b, 2 + len(with_b)), 'attrs': impls(with_b, 0.3)}
     good2 = {'bases': [0], 'ifaces': [1, 0], 'attrs': []}
@@ -1511,17 +1621,19 @@ def gen_shared_base(rng):
     probe = Built(decls)
     ops = []
 
-    def export(cls, path):
+    def export(cls, path, h=0):
         op = {'op': 'export', 'path': path, 'cls': cls}
+        if h:
+            op['h'] = 1
         probe.export(op)
         ops.append(op)
 
-    def calls(path, n):
+    def calls(path, n, h=0):
         for _ in range(n):
             j = rng.choice([0] * 3 + with_b)
             m = rng.choice(ifaces[j]['methods'])
             iface, member, sig_in = ifaces[j]['name'], m[0], m[1]
-            if rng.random() < 0.2:
+            if rng.random() < 0.2 or iface == '':
                 iface = None
             if rng.random() < 0.08:
                 member = rng.choice(MEMBERS)
@@ -1531,6 +1643,8 @@ def gen_shared_base(rng):
                   'sig': sig_in if sig_in != '' else rng.choice([None, '']), 'body': repr(gen_value(rng, sig_in)),
                   'sender': rng.choice([':1.7', ':1.42', None]), 'serial': rng.randrange(1, 2 ** 32),
                   'expectReply': rng.random() < 0.8, 'autoStart': True, 'flag4': False}
+            if h:
+                op['h'] = 1
             exp = expected_of(probe, op)
             op['outcome'] = gen_outcome(rng, exp.get('sig_out', rng.choice(SIGS)), deferred_ok=False)
             ops.append(op)
@@ -1543,8 +1657,11 @@ def gen_shared_base(rng):
         export(1, rng.choice(['/a', '/a/b']))       # a failed export over an exported path leaves it alone
         calls('/a/b', rng.randrange(1, 3))
     if rng.random() < 0.6:
-        export(3, '/c/d/e')
-        calls('/c/d/e', rng.randrange(1, 3))
+        h = 1 if rng.random() < 0.4 else 0       # the other good sibling, maybe on a second handler of the process
+        path = rng.choice(['/c/d/e', '/a/b']) if h else '/c/d/e'
+        export(3, path, h)
+        calls(path, rng.randrange(1, 3), h)
+        calls('/a/b', 1)
     if rng.random() < 0.3:
         ops.append({'op': 'unexport', 'path': '/a/b'})
         probe.unexport('/a/b')
@@ -1648,6 +1765,7 @@ def judge(ctx, stream, sc, model_out=None):
             ctx.stat('flags=%d' % ((0 if op['expectReply'] else 1) | (0 if op.get('autoStart', True) else 2)
                                    | (4 if op.get('flag4') else 0)))
             ctx.stat('iface=' + ('none' if op['iface'] is None else 'given'))
+            ctx.stat('handler=%d' % cr.h)
             ctx.stat('sender=' + ('none' if op['sender'] is None else 'unique' if op['sender'].startswith(':') else 'well-known'))
             if exp['v'] == 'run':
                 ctx.stat('binding=' + exp['style'])
@@ -1680,6 +1798,11 @@ def judge(ctx, stream, sc, model_out=None):
             ctx.stat('op=' + op['op'])
     if any(c.get('bases') == ['plain'] for c in spec['decls']['classes']):
         ctx.stat('scenario: mixin (multiple inheritance)')
+    if spec['decls'].get('two_handlers'):
+        ctx.stat('scenario: two handlers in one process')
+    clss = [o['cls'] for o in spec['decls']['objects']] + [o['cls'] for o in spec['ops'] if o['op'] == 'export']
+    if len(clss) != len(set(clss)):
+        ctx.stat('scenario: several instances of one class exported')
     for tv in sorted({c['truth'] for c in spec['decls']['classes'] if c.get('truth')}):
         ctx.stat('scenario: exported class with truth value ' + tv)
     for sh in sorted({a.get('shape') for c in spec['decls']['classes'] for a in c['attrs'] if a.get('shape')}):
